@@ -176,6 +176,25 @@ def bare_check(b):
     c.fill.numpy(arr.copy())
     if c.toJson() != h.toJson():
         return "clone and original diverge under identical vectorised fills with a bare array (%s over %s)" % (sh, b["form"])
+    # a histogram with the default selection of the convenience constructors (the library's own `unweighted` function, which
+    # after pickling is an equal but distinct object): clone and original take the same vectorised fill alike — both fill, or
+    # both refuse in the same way — and stay equal
+    from histogrammar.convenience import HistogramCut
+
+    hc = HistogramCut(4, -2.0, 3.0, q())
+    for x in b["pre"]:
+        hc.fill(x)
+    cc = pickle.loads(pickle.dumps(hc))
+    outcome = []
+    for obj in (hc, cc):
+        try:
+            obj.fill.numpy(arr.copy())
+            outcome.append("filled")
+        except Exception as e:  # noqa: BLE001
+            outcome.append(type(e).__name__)
+    if outcome[0] != outcome[1] or not (cc == hc) or cc.toJson() != hc.toJson():
+        return ("a HistogramCut with the default selection and its pickle clone take one vectorised fill differently (original: %s, "
+                "clone: %s) or differ afterwards (%s)" % (outcome[0], outcome[1], b["form"]))
     # data that is not exactly representable (values within rounding distance of non-dyadic bin edges, fractional weights):
     # every value must land in the same bin on both sides; accumulated sums agree up to rounding
     import random
